@@ -3,6 +3,7 @@ Relative Components Analysis (RCA)
 """
 
 import numpy as np
+import scipy.linalg
 import warnings
 from sklearn.base import TransformerMixin
 
@@ -112,10 +113,10 @@ class RCA(MahalanobisMixin, TransformerMixin):
     # Fisher Linear Discriminant projection
     if dim < X.shape[1]:
       total_cov = np.cov(X[chunk_mask], rowvar=0)
-      tmp = np.linalg.lstsq(total_cov, inner_cov, rcond=None)[0]
-      vals, vecs = np.linalg.eig(tmp)
-      inds = np.argsort(vals)[:dim]
-      A = vecs[:, inds]
+      # generalized symmetric eigenproblem inner_cov v = lambda total_cov v
+      # (real eigenpairs, eigenvalues in ascending order)
+      vals, vecs = scipy.linalg.eigh(inner_cov, total_cov)
+      A = vecs[:, :dim]
       inner_cov = np.atleast_2d(A.T.dot(inner_cov).dot(A))
       self.components_ = _inv_sqrtm(inner_cov).dot(A.T)
     else:
